@@ -14,17 +14,29 @@ import (
 // C10 — positional arguments bind in declaration order.
 
 var c10Scalars = []*decl.Type{decl.TString, decl.TInt, decl.TUpper}
+
+// the int field at an odd position of a layout carries base:"8" (so "7" converts, "-3" converts, "10" would be 8)
+func c10Base(t *decl.Type, pos int) string {
+	if t == decl.TInt && pos%2 == 1 {
+		return "8"
+	}
+	return ""
+}
+
 var c10Slices = []*decl.Type{nil, decl.TStrings, decl.TInts}
 
-var c10Units = [][]string{{"w"}, {"7"}, {"-3"}, {"-v"}, {"-s", "val"}, {"--"}, {"-x"}, {"cmd"}, {"--str=q"}}
+var c10Units = [][]string{{"w"}, {"7"}, {"-3"}, {"-v"}, {"-s", "val"}, {"--"}, {"-x"}, {"cmd"}, {"--str=q"}, {"10"}}
 
-func c10Decl(types []int, slice int, onCmd bool, pdd bool) *decl.Decl {
-	var pos []*decl.PosArg
-	for i, t := range types {
-		pos = append(pos, &decl.PosArg{Field: fmt.Sprintf("P%d", i), Type: c10Scalars[t]})
-	}
-	if c10Slices[slice] != nil {
-		pos = append(pos, &decl.PosArg{Field: "Rest", Type: c10Slices[slice]})
+func c10Decl(types []int, slice int, owner int, pdd bool) *decl.Decl {
+	mk := func() []*decl.PosArg {
+		var pos []*decl.PosArg
+		for i, t := range types {
+			pos = append(pos, &decl.PosArg{Field: fmt.Sprintf("P%d", i), Type: c10Scalars[t], Base: c10Base(c10Scalars[t], i)})
+		}
+		if c10Slices[slice] != nil {
+			pos = append(pos, &decl.PosArg{Field: "Rest", Type: c10Slices[slice]})
+		}
+		return pos
 	}
 	top := &decl.Cmd{Name: "app", Opts: []*decl.Opt{
 		{Field: "Verbose", Short: "v", Long: "verbose", Type: decl.TBools},
@@ -33,10 +45,14 @@ func c10Decl(types []int, slice int, onCmd bool, pdd bool) *decl.Decl {
 	cmd := &decl.Cmd{Field: "Cmd", Name: "cmd"}
 	top.Cmds = []*decl.Cmd{cmd}
 	top.SubOptional = true
-	if onCmd {
-		cmd.Pos = pos
-	} else {
-		top.Pos = pos
+	switch owner {
+	case 0:
+		top.Pos = mk()
+	case 1:
+		cmd.Pos = mk()
+	default: // both: the command's queue starts afresh when the command word is reached
+		top.Pos = mk()
+		cmd.Pos = mk()
 	}
 	d := &decl.Decl{Top: top}
 	if pdd {
@@ -63,7 +79,7 @@ func init() {
 	body := func(c *explore.Ctx) {
 		li := c.Choose(len(layouts))
 		si := c.Choose(len(c10Slices))
-		onCmd := c.Bool()
+		owner := c.Choose(3)
 		pdd := c.Bool()
 		api := c.Bool()
 		maxDepth := 4
@@ -75,13 +91,13 @@ func init() {
 		for i := 0; i < n; i++ {
 			argv = append(argv, c10Units[c.Choose(len(c10Units))]...)
 		}
-		key := fmt.Sprintf("l%d/s%d/%v/%v", li, si, onCmd, pdd)
+		key := fmt.Sprintf("l%d/s%d/%v/%v", li, si, owner, pdd)
 		d := cache[key]
 		if d == nil {
 			if len(cache) > 100 {
 				cache = map[string]*decl.Decl{}
 			}
-			d = c10Decl(layouts[li], si, onCmd, pdd)
+			d = c10Decl(layouts[li], si, owner, pdd)
 			cache[key] = d
 		}
 		c.Describe(func() interface{} {
@@ -92,7 +108,7 @@ func init() {
 			if c10Slices[si] != nil {
 				ts = append(ts, c10Slices[si].Name)
 			}
-			return map[string]interface{}{"positional_fields": ts, "on_command": onCmd, "pass_double_dash": pdd, "api_path": api, "argv": argv}
+			return map[string]interface{}{"positional_fields": ts, "owner(0 parser,1 command,2 both)": owner, "pass_double_dash": pdd, "api_path": api, "argv": argv}
 		})
 		cfg := &ref.Config{D: d}
 		res := ref.Run(cfg, argv)
@@ -198,8 +214,8 @@ func init() {
 		Level:      "model_checking",
 		ShardDepth: 3,
 		Body:       body,
-		Rule: "positional layouts: every sequence of 0..3 scalar fields over {string, int, Unmarshaler} x trailing slice {none, []string, []int} x owner {parser, command} x PassDoubleDash on/off x {tags, API} " +
-			"x every sequence of <= 4 (quick) / <= 6 (thorough) units over {w, 7, -3, -v, -s val, --, -x, cmd, --str=q}; oracle = CLM positional queue (field values after conversion, overflow into remaining arguments); after every accepted vector the public Args() list must still be the declared one and, for layouts without a slice, a second parse of the same vector on the same parser must bind the same fields",
+		Rule: "positional layouts: every sequence of 0..3 scalar fields over {string, int, Unmarshaler} (an int field at an odd position carries base:\"8\") x trailing slice {none, []string, []int} x owner {parser, command, both (the same layout on each)} x PassDoubleDash on/off x {tags, API} " +
+			"x every sequence of <= 4 (quick) / <= 6 (thorough) units over {w, 7, -3, 10, -v, -s val, --, -x, cmd, --str=q}; oracle = CLM positional queue (field values after conversion, overflow into remaining arguments); after every accepted vector the public Args() list must still be the declared one and, for layouts without a slice, a second parse of the same vector on the same parser must bind the same fields",
 		Assumptions:  []string{"conversion of the alphabet's tokens is taken from the conversion model (checked against the library by C11)"},
 		RequiredHits: []string{"compared", "three-or-more-bound", "after-terminator", "conversion-fault", "second-parse"},
 		Bound:        [2]string{"all unit sequences of length <= 4", "all unit sequences of length <= 6"},
